@@ -8,7 +8,9 @@
 (*   out: dial (tcp.go DialWithUpdates/dialWithScope) -> entry -> secneg   *)
 (*        -> handshake -> gated -> setpeer -> muxneg -> muxed              *)
 (*        (upgrader.go upgrade) -> handed -> admitted (swarm.go addConn)   *)
-(*   in:  accept (listener.go gatedMaListener.Accept) -> wait (threshold)  *)
+(*   in:  accept (listener.go gatedMaListener.Accept) [-> demux (tcpreuse   *)
+(*        sampling + routing)] [-> wsneg (websocket http upgrade)]          *)
+(*        -> wait (threshold)                                              *)
 (*        -> entry ... muxed -> queued (handleIncoming) -> handed          *)
 (*        (listener.Accept) -> admitted                                    *)
 (* and owns resources: the raw network connection ("raw"), its connection  *)
@@ -55,7 +57,7 @@ View == <<stage, held, dead, lst, swarm, sst, sdir, sheld>>
 
 Terminal == {"failed", "closed"}
 STerminal == {"failed", "closed"}
-InFlightIn == {"accept", "wait", "entry", "secneg", "handshake", "gated", "setpeer", "muxneg", "muxed", "queued"}
+InFlightIn == {"accept", "demux", "wsneg", "wait", "entry", "secneg", "handshake", "gated", "setpeer", "muxneg", "muxed", "queued"}
 
 (***************************************************************************)
 (* The exits.  <<direction, stage, kind>>                                  *)
@@ -68,6 +70,11 @@ ExitTable ==
    <<"out", "dial", "tracing">>,         \* newTracingConn failed -> connScope.Done(), conn NOT closed
    <<"in", "accept", "gater">>,          \* InterceptAccept -> conn.Close()
    <<"in", "accept", "rcmgr-open">>,     \* OpenConnection refused -> conn.Close()
+   <<"in", "demux", "io">>,              \* tcpreuse: sampling read fails / times out -> conn closed, connScope.Done()
+   <<"in", "demux", "nolistener">>,      \* tcpreuse: no listener for that type -> connWithScope.Close()
+   <<"in", "demux", "ctx">>,             \* tcpreuse: nobody accepts in time / listener closed -> connWithScope.Close()
+   <<"in", "wsneg", "io">>,              \* websocket: bad request / failed upgrade -> negotiatingConn.Close()
+   <<"in", "wsneg", "ctx">>,             \* websocket: handshake time-out AfterFunc -> connWithScope.Close()
    <<"out", "entry", "nilpeer">>}        \* ErrNilPeer -> connScope.Done(), conn NOT closed
   \cup Both("entry", "badpsk")           \* NewProtectedConn failed -> conn.Close(), Done
   \cup Both("entry", "forcepnet")        \* ErrNotInPrivateNetwork -> Done, conn NOT closed
@@ -119,6 +126,11 @@ Step(a) ==
   /\ LET d == DirOf[a]  st == stage[a]  h == held[a] IN
      \/ /\ st = "dial" /\ Move(a, "entry", {"scope", "raw"})          \* OpenConnection, SetPeer, dial: all fine
      \/ /\ st = "accept" /\ Move(a, "wait", h \cup {"scope"})         \* gater allows, OpenConnection fine
+     \/ /\ st = "accept" /\ Move(a, "demux", h \cup {"scope", "neg"}) \* ... behind a shared TCP listener: sampling goroutine
+     \/ /\ st = "accept" /\ Move(a, "wsneg", h \cup {"scope", "neg"}) \* ... behind a websocket listener: http.Server goroutine
+     \/ /\ st = "demux" /\ Move(a, "wait", h \ {"neg"})                \* routed to the multistream listener with its scope
+     \/ /\ st = "demux" /\ Move(a, "wsneg", h)                         \* routed to the websocket listener
+     \/ /\ st = "wsneg" /\ Move(a, "wait", h \ {"neg"})                \* upgraded, handed to the upgrader listener
      \/ /\ st = "wait" /\ Slots < QueueLen                             \* threshold.Wait(), go upgrade
         /\ Move(a, "entry", h \cup {"upg"})
      \/ /\ st = "entry" /\ Move(a, "secneg", h \cup {"neg"})
